@@ -4,6 +4,7 @@
 # EasyFEA is distributed under the terms of the GNU General Public License v3, see LICENSE.txt and CREDITS.md for more information.
 
 from abc import ABC, abstractmethod
+import copy
 import pickle
 from datetime import datetime
 from typing import Union, Optional, Any
@@ -455,7 +456,9 @@ class _Simu(_IObserver, _params.Updatable, ABC):
         entry = self.__list_results[iter]
         if isinstance(entry, str):
             return self.__Restore_iter_from_local(self.__Read_iter_parts(entry))
-        return entry.copy()
+        # an entry kept in memory is handed out the way an entry read from disk is: as a fresh dict
+        # with its own arrays, so nothing the caller does with it reaches the history
+        return copy.deepcopy(entry)
 
     @abstractmethod
     def Set_Iter(self, iter: int = -1, resetAll=False) -> dict:
